@@ -8,7 +8,7 @@ CONSTANTS Ids = {1}
  Ks = {10}
  Cap = 3
  BufCap = 4
- MaxN = 7
+ MaxN = 6
 INVARIANT Inv
 VIEW View
 CHECK_DEADLOCK FALSE
